@@ -103,6 +103,10 @@ def gen(seed, index, tier):
         if r < 0.75:
             return {"op": "rewrite", "dir": d, "name": rng.choice(sorted(present[d])),
                     "size": rng.choice([0, 3, 2000, 5000])}
+        if r < 0.83 and len(dirs) >= 2:
+            a, b = rng.sample(dirs, 2)
+            present[a], present[b] = present[b], present[a]
+            return {"op": "swapdirs", "dir": a, "other": b}
         kind = rng.choice(["names", "cap", "abstract", "dirabstract"])
         return {"op": "meta", "dir": d, "kind": kind, "name": rng.choice(sorted(present[d])),
                 "v": rng.randrange(100), "remove": rng.random() < 0.3}
@@ -155,6 +159,14 @@ def _apply(op, root, now):
             return False
         os.rename(a, b)
         simfs.real_utime(d, (now, now))
+        return True
+    if k == "swapdirs":
+        a, b = os.path.join(root, op["dir"]), os.path.join(root, op["other"])
+        tmp = os.path.join(root, ".swap-tmp")
+        os.rename(a, tmp)
+        os.rename(b, a)
+        os.rename(tmp, b)
+        simfs.real_utime(root, (now, now))
         return True
     if k == "meta":
         kind = op["kind"]
